@@ -5,8 +5,8 @@ code under test; everything is compared cell by cell with explicit rules:
 
 * mode "exact"  : values identical (NaN == NaN, all nulls of an object column are one value)
 * mode "json"   : floats within |a-b| <= 1e-14 * max(1, |a|), everything else identical
-* mode "lossy"  : Excel / SQLite - dtype ignored, numbers compared as floats (rel. 1e-15 for the decimal text
-                  representation of Excel), nulls of any kind are one value, bool == 0/1
+* mode "lossy"  : Excel / SQLite - dtype ignored, numbers compared as floats with the JSON bound (objects are
+                  stored as JSON text, Excel numbers as decimal text), nulls of any kind are one value, bool == 0/1
 
 A difference is a dict {"kind", "where", "cls", "a", "b"}; `cls` classifies the root cause from the two values.
 """
@@ -62,9 +62,8 @@ def float_close(a, b, mode):
         return a == b
     if mode == "exact":
         return a == b
-    if mode == "json":
-        return abs(a - b) <= JSON_TOL * max(1.0, abs(a))
-    return abs(a - b) <= 1e-15 * max(abs(a), abs(b)) + 1e-300
+    # "json" and "lossy" (Excel / SQLite write controller objects as JSON text and numbers as decimal text)
+    return abs(a - b) <= JSON_TOL * max(1.0, abs(a))
 
 
 def value_cls(a, b):
@@ -312,10 +311,12 @@ def cmp_frame(a, b, where, mode, out, depth=0, allow_sorted=True, skip_null_colu
             out.add("columns", where, "duplicate-column", c, None)
             continue
         w = "%s.%s" % (where, c)
+        cell_mode = mode
         if mode != "lossy" and str(sa.dtype) != str(sb.dtype):
             out.add("dtype", w, "%s->%s%s" % (sa.dtype, sb.dtype, "(empty)" if not len(a) else ""), sa.dtype, sb.dtype)
             if not len(a):
                 continue
+            cell_mode = "lossy"     # the dtype change is reported once; the cells are compared by value only
         if mode != "lossy" and isinstance(sa.dtype, pd.CategoricalDtype) and isinstance(sb.dtype, pd.CategoricalDtype):
             if list(sa.dtype.categories) != list(sb.dtype.categories) or sa.dtype.ordered != sb.dtype.ordered:
                 out.add("dtype", w, "categories", list(sa.dtype.categories), list(sb.dtype.categories))
@@ -323,7 +324,7 @@ def cmp_frame(a, b, where, mode, out, depth=0, allow_sorted=True, skip_null_colu
         n = 0
         for i, (x, y) in enumerate(zip(va, vb)):
             before = len(out)
-            cmp_value(x, y, "%s[%r]" % (w, a.index[i]), mode, out, depth + 1)
+            cmp_value(x, y, "%s[%r]" % (w, a.index[i]), cell_mode, out, depth + 1)
             if len(out) > before:
                 n += 1
                 if n >= 3:
